@@ -97,12 +97,34 @@ func runC18(c *Ctx) {
 		return e.Op == an.OpExtract && e.Idx == 0 && e.Args[0].Op == an.OpTypeAssert && strings.HasSuffix(e.Args[0].Name, "ndp.RouterAdvertisement") && e.Args[0].Args[0].Op == an.OpParam
 	}
 	isPfx := func(e *an.Expr) bool {
-		return e.Op == an.OpElem && exprCallIs(e.Args[0], PkgCorerad, "", "pick") && strings.Contains(e.Args[0].Name, "PrefixInformation") &&
-			len(e.Args[0].Args) == 1 && e.Args[0].Args[0].IsField("Options") && isRA(e.Args[0].Args[0].Args[0])
+		// an element of pick[*ndp.PrefixInformation](ra.Options) …
+		if e.Op == an.OpElem && exprCallIs(e.Args[0], PkgCorerad, "", "pick") && strings.Contains(e.Args[0].Name, "PrefixInformation") &&
+			len(e.Args[0].Args) == 1 && e.Args[0].Args[0].IsField("Options") && isRA(e.Args[0].Args[0].Args[0]) {
+			return true
+		}
+		// … or an element of ra.Options type-asserted to *ndp.PrefixInformation (pick written out as a loop)
+		b, idx := stripExtract(e)
+		if idx == 0 && b.Op == an.OpTypeAssert && strings.HasSuffix(b.Name, "ndp.PrefixInformation") && len(b.Args) == 1 {
+			el := b.Args[0]
+			return el.Op == an.OpElem && len(el.Args) >= 1 && el.Args[0].IsField("Options") && isRA(el.Args[0].Args[0])
+		}
+		return false
 	}
 	isIface := func(e *an.Expr) bool { return e.IsField("iface") && e.Args[0].Op == an.OpParam && e.Args[0].Idx == 0 }
 	isHost := func(e *an.Expr) bool { return e.Op == an.OpParam && e.Name == "host" }
+	// prefixStr(p) is cidrStr(p.Prefix, p.PrefixLength): checked on its own body, then accepted as a label
+	prefixStrOK := false
+	if ps := c.P.Func("internal/corerad", "prefixStr"); ps != nil {
+		for _, r := range an.Returns(ps) {
+			e := c.XO.Of(r.Results[0])
+			prefixStrOK = exprCallIs(e, PkgCorerad, "", "cidrStr") && len(e.Args) == 2 && e.Args[0].IsField("Prefix") && e.Args[0].Args[0].Op == an.OpParam &&
+				e.Args[1].IsField("PrefixLength") && e.Args[1].Args[0].Op == an.OpParam
+		}
+	}
 	isCIDR := func(e *an.Expr) bool {
+		if prefixStrOK && exprCallIs(e, PkgCorerad, "", "prefixStr") && len(e.Args) == 1 && isPfx(e.Args[0]) {
+			return true
+		}
 		return exprCallIs(e, PkgCorerad, "", "cidrStr") && len(e.Args) == 2 && e.Args[0].IsField("Prefix") && isPfx(e.Args[0].Args[0]) &&
 			e.Args[1].IsField("PrefixLength") && isPfx(e.Args[1].Args[0])
 	}
@@ -146,6 +168,17 @@ func runC18(c *Ctx) {
 		ra := false
 		lifeNZ := false
 		inLoop := p.Cut
+		// an iteration over ra.Options that meets an option of another kind (pick written out as a loop
+		// with a checked type assertion) is not a prefix iteration: no prefix gauge may be set on it
+		otherOption := false
+		for _, a := range p.Atoms {
+			if a.Cond.Op == an.OpExtract && a.Cond.Idx == 1 && a.Cond.Args[0].Op == an.OpTypeAssert && strings.HasSuffix(a.Cond.Args[0].Name, "ndp.PrefixInformation") && !a.Pos {
+				otherOption = true
+			}
+		}
+		if otherOption {
+			inLoop = false
+		}
 		for _, a := range p.Atoms {
 			if a.Cond.Op == an.OpExtract && a.Cond.Idx == 1 && a.Cond.Args[0].Op == an.OpTypeAssert && strings.HasSuffix(a.Cond.Args[0].Name, "ndp.RouterAdvertisement") {
 				ra = a.Pos
@@ -204,6 +237,10 @@ func runC18(c *Ctx) {
 			wantDefault = 1
 		}
 		okPresence := count["MonFlagManaged"] == 1 && count["MonFlagOther"] == 1 && count["MonDefaultRouteExpirationTime"] == wantDefault
+		if otherOption {
+			okPresence = okPresence && count["MonPrefixAutonomous"] == 0 && count["MonPrefixOnLink"] == 0 &&
+				count["MonPrefixPreferredLifetimeExpirationTime"] == 0 && count["MonPrefixValidLifetimeExpirationTime"] == 0
+		}
 		if inLoop {
 			okPresence = okPresence && count["MonPrefixAutonomous"] == 1 && count["MonPrefixOnLink"] == 1 &&
 				count["MonPrefixPreferredLifetimeExpirationTime"] == 1 && count["MonPrefixValidLifetimeExpirationTime"] == 1
